@@ -10,7 +10,13 @@ families of C12) x program (array / delayed / bag / dataframe pipelines) x tuple
 slots A, B, A2 (equal-token rebuild), Xa/Xb/Xd/Xf (fillers of every kind) - so collection kinds are
 interleaved in every way.  Each plan is executed on real collections: every collection is computed
 alone (value and every task key of its graph fingerprinted), then the tuple through dask.compute;
-TLC decides every recorded call (KeySpaceTrace.tla)."""
+TLC decides every recorded call (KeySpaceTrace.tla).
+
+Sibling pairs (KeySpaceMC SibOps, harness/siblings.py): TLC also enumerates [operation, base shape, EVERY chunking incl.
+all-unit chunks, two values a # b of the operation's ONE varied argument] over ~110 array / bag / delayed / dataframe
+operations; both siblings are built from the same base, each computed alone must equal the eager NumPy / Python / pandas
+reference (otherwise the case is another property's), then dask.compute(A, B), dask.compute(B, A) and one consumer task
+of both must give the alone values, and the names must differ whenever the values differ (KeySpace!SiblingBad)."""
 from __future__ import annotations
 
 import json
@@ -32,7 +38,14 @@ META = {
                   "dicts in another order, frames with permuted same-dtype columns / other block structure, Index dtypes) x array / "
                   "delayed / bag / dataframe programs x every tuple pattern of length 2-3 (thorough 2-4) over 7 slots. Each "
                   "collection is computed alone (value + every task key), then the tuple via dask.compute (sync scheduler, "
-                  "optimize_graph on and off); TLC decides each recorded call.",
+                  "optimize_graph on and off); TLC decides each recorded call. Sibling pairs: ~110 operations (setitem value / index / "
+                  "slice / mask, stack / concatenate axis, getitem, reductions axis / keepdims / dtype / ddof, map_blocks function / "
+                  "closure / args / kwargs, elementwise operands, where operands, astype, transpose, reshape, roll, pad, clip, flip, "
+                  "repeat, tile, take, isin, ...; bag map / filter / fold / reduction / topk / pluck / map_partitions / starmap / "
+                  "accumulate / foldby / groupby; delayed args / kwargs / function / closure / nested args / nout / value / getitem / "
+                  "attr / method / operator; dataframe column / constant / loc / clip / shift / astype / rename / ...) x every chunking "
+                  "of bases (4,), (2,2), (2,3) [thorough + (5,), (3,2)] x every unordered pair of argument values: 2.2k cases quick "
+                  "(all run), thorough all.",
     "level_note": "Trusted: TLC; the fingerprint of a value (type, dtype, shape / index / name, content); the pyarrow shim for "
                   "dask.dataframe. Key clashes are reported only as the cause of a wrong result, never alone. Programs are short "
                   "pipelines (<= 3 operations); the generators of C19-C48 are not reused. Only the synchronous scheduler.",
@@ -230,6 +243,8 @@ def to_record(i, plan, rec):
 def classify(plan, clauses, rec):
     if "Raised" in clauses:
         return "Raised:%s:%s" % (rec["raised"].split(":")[0], plan["fam"])
+    if "ClashExplains" in clauses:                   # every wrong result is a clashing sibling's value
+        return "Together:key-clash:%s" % plan["fam"]
     if "Interleaved" in clauses:
         return "Together:interleaved-kinds"
     if "KeyClash" in clauses:
